@@ -1,0 +1,117 @@
+//go:build verif && verif_mul
+
+package secp256k1
+
+// Verification hooks for the point-multiplication internals (build tags
+// `verif` and `verif_mul`).  Expose-only; never called by library code.
+
+import "unsafe"
+
+// VerifAddComplete exposes addComplete (no validity bookkeeping).
+func (v *Point) VerifAddComplete(p, q *Point) *Point {
+	v.addComplete(p, q)
+	v.isValid = true
+	return v
+}
+
+// VerifAddMixed exposes addMixed; the addend is the affine point (x2, y2).
+func (v *Point) VerifAddMixed(p *Point, x2, y2 *VerifFieldElement) *Point {
+	v.addMixed(p, x2, y2)
+	v.isValid = true
+	return v
+}
+
+// VerifDoubleComplete exposes doubleComplete.
+func (v *Point) VerifDoubleComplete(p *Point) *Point {
+	v.doubleComplete(p)
+	v.isValid = true
+	return v
+}
+
+// VerifMulBeta exposes mulBeta.
+func (v *Point) VerifMulBeta(p *Point) *Point { return v.mulBeta(p) }
+
+// VerifSplitGLV exposes splitGLV.
+func (s *Scalar) VerifSplitGLV() (*Scalar, *Scalar) { return s.splitGLV() }
+
+// VerifMulGFlooredDiv exposes mulGFlooredDiv with g = g1 (which == 1)
+// or g = g2 (which == 2).
+func (s *Scalar) VerifMulGFlooredDiv(k *Scalar, which int) *Scalar {
+	switch which {
+	case 1:
+		return s.mulGFlooredDiv(k, scG1)
+	case 2:
+		return s.mulGFlooredDiv(k, scG2)
+	}
+	panic("verif: bad which")
+}
+
+// VerifMulGFlooredDivAny exposes mulGFlooredDiv with an arbitrary g.
+func (s *Scalar) VerifMulGFlooredDivAny(k, g *Scalar) *Scalar {
+	return s.mulGFlooredDiv(k, g)
+}
+
+// VerifPow2k exposes Scalar.pow2k.
+func (s *Scalar) VerifPow2k(a *Scalar, k uint) *Scalar { return s.pow2k(a, k) }
+
+// VerifScalarMultVartimeGLV exposes scalarMultVartimeGLV.
+func (v *Point) VerifScalarMultVartimeGLV(s *Scalar, p *Point) *Point {
+	return v.scalarMultVartimeGLV(s, p)
+}
+
+// VerifScalarBaseMultVartime exposes scalarBaseMultVartime.
+func (v *Point) VerifScalarBaseMultVartime(s *Scalar) *Point {
+	return v.scalarBaseMultVartime(s)
+}
+
+// VerifGeneratorTableEntry returns the raw limbs of entry j (0..254) of
+// large generator table i (0..31).
+func VerifGeneratorTableEntry(i, j int) (x, y [4]uint64) {
+	p := &generatorHugeAffineTable[i][j]
+	return p.x.VerifRawLimbs(), p.y.VerifRawLimbs()
+}
+
+// VerifGeneratorOddTableEntry returns the raw limbs of entry j (0..14)
+// of odd generator table i (0..31).
+func VerifGeneratorOddTableEntry(i, j int) (x, y [4]uint64) {
+	p := &generatorOddAffineTable[i][j]
+	return p.x.VerifRawLimbs(), p.y.VerifRawLimbs()
+}
+
+// VerifGeneratorTableBytesReleased reports whether the embedded byte
+// blob was released after table construction.
+func VerifGeneratorTableBytesReleased() bool { return generatorHugeAffineTableBytes == nil }
+
+// VerifLookupProjective exposes lookupProjectivePoint on a caller-built table.
+func VerifLookupProjective(tbl *[15]Point, out *Point, idx uint64) {
+	lookupProjectivePoint((*projectivePointMultTable)(tbl), out, idx)
+}
+
+// VerifAffineEntry has the memory layout of affinePoint.
+type VerifAffineEntry [2][4]uint64
+
+// VerifLookupAffine exposes lookupAffinePoint on a caller-built table.
+func VerifLookupAffine(tbl *[15]VerifAffineEntry, out *VerifAffineEntry, idx uint64) {
+	lookupAffinePoint((*affinePointMultTable)(unsafe.Pointer(tbl)), (*affinePoint)(unsafe.Pointer(out)), idx)
+}
+
+// VerifLayout reports the sizes the lookup hooks rely upon.
+func VerifLayout() (pointSize, affineSize, elementSize uintptr) {
+	return unsafe.Sizeof(Point{}), unsafe.Sizeof(affinePoint{}), unsafe.Sizeof(VerifFieldElement{})
+}
+
+// VerifTableSelectAndAdd builds the 15-entry projective table of p and
+// applies the constant-time (vartime == false) or variable-time
+// SelectAndAdd for idx to sum.
+func VerifTableSelectAndAdd(sum, p *Point, idx uint64, vartime bool) *Point {
+	tbl := newProjectivePointMultTable(p)
+	if vartime {
+		return tbl.SelectAndAddVartime(sum, idx)
+	}
+	return tbl.SelectAndAdd(sum, idx)
+}
+
+// VerifProjectiveTable returns the 15-entry table [1P..15P] of p.
+func VerifProjectiveTable(p *Point) [15]Point {
+	return [15]Point(newProjectivePointMultTable(p))
+}
